@@ -1442,7 +1442,9 @@ def gen_loop(node, code, codegen):
         codegen.gen_code_for_node(node.cond, code)
         gen_code_for_conv(expr.Type.INTEGER, node.cond, code, codegen)
         if node.kind == 'do_until':
-            code.add(('not',))
+            # logical negation: any non-zero value is true, so a
+            # bitwise NOT will not do (NOT 2 is -3, still true)
+            code.add(('push0%',), ('cmp',), ('eq',))
         code.add(('jz', loop_label))
 
     gen_code_for_block(node.body, code, codegen)
@@ -1451,7 +1453,7 @@ def gen_loop(node, code, codegen):
         codegen.gen_code_for_node(node.cond, code)
         gen_code_for_conv(expr.Type.INTEGER, node.cond, code, codegen)
         if node.kind == 'loop_while':
-            code.add(('not',))
+            code.add(('push0%',), ('cmp',), ('eq',))
         code.add(('jz', do_label))
     else:
         code.add(('jmp', do_label))
